@@ -27,7 +27,9 @@ pub struct GlideProcessor {
 impl GlideProcessor {
     /// `GlideProcessor::new(sr)` is a new glide processor with sample rate `sr`
     pub fn new(sample_rate_hz: f32) -> Self {
-        let max_fc = sample_rate_hz / 2.0_f32;
+        // above a quarter of the sample rate the pole of the bilinear one-pole lowpass turns negative and the output
+        // rings, at half the sample rate it sits on the unit circle and the ringing never decays
+        let max_fc = sample_rate_hz / 4.0_f32;
 
         let coeffs = coeffs(sample_rate_hz.hz(), max_fc.hz());
 
